@@ -13,6 +13,25 @@ class N(NodeMixin):
         self.i = i
 
 
+class NE(NodeMixin):
+    """value/container semantics: all instances equal, empty, falsy"""
+
+    def __init__(self, i):
+        self.i = i
+
+    def __eq__(self, other):
+        return True
+
+    def __ne__(self, other):
+        return False
+
+    def __hash__(self):
+        return 1
+
+    def __len__(self):
+        return 0
+
+
 ITERS = {
     "pre": PreOrderIter,
     "post": PostOrderIter,
@@ -43,11 +62,11 @@ def restricted(body):
     def run(cfg):
         """C06: one iterator (cfg['iter']); stop/filter lazy flags; maxlevel None or ANY int (stays symbolic)."""
         which = cfg["iter"]
-        n = nondet_int(1, cfg["N"], "n")
+        n = cfg["N"] if cfg.get("exactN") else nondet_int(1, cfg["N"], "n")
         pv = pick_parent_vector(n)
         parent, children = model_from_pv(pv)
         nodes = build(pv, N)
-        s = nondet_int(0, n - 1, "start")
+        s = nondet_int(0, n - 1, "start") if cfg.get("starts", True) else 0
         use_ml = nondet_bool("maxlevel_given")
         maxlevel = nondet_sym(int, "maxlevel") if use_ml else None
         stopm = {}
@@ -117,7 +136,7 @@ def c05_body(cfg):
     s = nondet_int(0, n - 1, "start")
     k = nondet_int(0, 2, "consume")  # 0: full only; 1,2: also next() that many times on a fresh iterator
     with concrete_region():
-        nodes = build(pv, N)
+        nodes = build(pv, NE if cfg.get("cls") == "eq" else N)
         before = real_map(nodes)
         pre = m_preorder(children, s)
         levels = m_levels(children, s)
